@@ -270,7 +270,7 @@ func worker(c *core.C, depth int) {
 }
 
 func run(c *core.C) {
-	depth := core.Pick(c, 3, 4)
+	depth := core.Pick(c, 2, 3)
 	if d := os.Getenv("VERIF_C45_DEPTH"); d != "" {
 		fmt.Sscan(d, &depth)
 	}
